@@ -77,8 +77,12 @@ class DictStorage(QueueStorage):
         return new_attempts
 
     def set_recipients_delivered(self, id, rcpt_indexes):
-        self._remove_delivered_rcpts(self.env_db[id],
+        # Like the metadata above, the envelope is stored back: a shelf hands
+        # out copies, and a change made to a copy is lost.
+        envelope = self.env_db[id]
+        self._remove_delivered_rcpts(envelope,
                                      sorted(rcpt_indexes, reverse=True))
+        self.env_db[id] = envelope
         log.update_meta(id, delivered_indexes=rcpt_indexes)
 
     def load(self):
